@@ -214,6 +214,17 @@ Definition allowed (st : state) (s : session) : bool :=
          end
   end.
 
+(** Reading needs View only: the administrator, or the subject of the view entry that
+    [ORequest] wrote last. *)
+Definition can_view (st : state) (s : session) : bool :=
+  match s_mode s with
+  | MPase => true
+  | _ => match fget (s_fab s) (st_fabs st) with
+         | Some f => (s_node s =? ADMIN) || (s_node s =? f_acl f)
+         | None => false
+         end
+  end.
+
 (** ** Resumption cache *)
 Definition same_peer (a b : rrec) : bool := (r_fab a =? r_fab b) && (r_node a =? r_node b).
 
@@ -560,7 +571,7 @@ Definition step_fx (fx : fixes) (st : state) (o : op) : state * status :=
     | None => (st, StGone)
     | Some s =>
       if s_fab s =? 0 then (st, StFail)
-      else if negb (allowed st s) then (st, StFail)
+      else if negb (can_view st s) then (st, StFail)
       else if Nat.leb MAX_SUBS (length (st_subs st)) then (st, StFail)
       else
         (mkState (st_fabs st) (st_kvfabs st) (st_sess st) (st_recs st) (st_kvrecs st)
